@@ -7,12 +7,16 @@ import (
 	"context"
 	"errors"
 	"io"
+	"strconv"
 
+	"google.golang.org/grpc"
 	"google.golang.org/grpc/codes"
+	"google.golang.org/grpc/health/grpc_health_v1"
 	"google.golang.org/grpc/metadata"
 	"google.golang.org/grpc/status"
 
 	"github.com/oxia-db/oxia/proto"
+	"github.com/oxia-db/oxia/server"
 	"github.com/oxia-db/oxia/zzverif/vsched"
 )
 
@@ -40,6 +44,8 @@ type Net struct {
 	// BreakBudget: how many times a replication connection may drop under a message; where is a
 	// choice the explorer enumerates
 	BreakBudget int
+	// mdOverride: set by the real-provider path: the handler sees exactly the headers the caller attached
+	mdOverride metadata.MD
 }
 
 type grouper interface{ group() int }
@@ -80,6 +86,9 @@ func (n *Net) GetReplicateStream(ctx context.Context, follower string, namespace
 		return nil, ErrUnavailable
 	}
 	md := metadata.New(map[string]string{"shard-id": itoa(shard), "term": itoa(term), "namespace": namespace})
+	if n.mdOverride != nil {
+		md = n.mdOverride
+	}
 	sctx, cancel := context.WithCancel(metadata.NewIncomingContext(ctx, md))
 	st := &RepStream{net: n, follower: follower, term: term, ctx: sctx, cancel: cancel,
 		toServer: make(chan *proto.Append, 1024), toClient: make(chan *proto.Ack, 1024), done: make(chan struct{})}
@@ -256,6 +265,9 @@ func (n *Net) SendSnapshot(ctx context.Context, follower string, namespace strin
 		return nil, ErrUnavailable
 	}
 	md := metadata.New(map[string]string{"shard-id": itoa(shard), "term": itoa(term), "namespace": namespace})
+	if n.mdOverride != nil {
+		md = n.mdOverride
+	}
 	sctx, cancel := context.WithCancel(metadata.NewIncomingContext(ctx, md))
 	st := &snapStream{net: n, ctx: sctx, cancel: cancel, chunks: make(chan *proto.SnapshotChunk, 4096), resp: make(chan *proto.SnapshotResponse, 1), done: make(chan struct{})}
 	sc := vsched.Active()
@@ -348,4 +360,73 @@ func (n *Net) Truncate(follower string, req *proto.TruncateRequest) (*proto.Trun
 		s.Step(0)
 	}
 	return ep.Truncate(req.CloneVT())
+}
+
+// ---- the real replication RPC provider over this network ------------------------------
+
+// Provider returns the repository's own ReplicationRpcProvider with this network as its client pool: the
+// namespace / shard / term headers of the streams are then built by the real code and reach the follower the
+// way gRPC delivers them (outgoing metadata of the caller = incoming metadata of the handler).
+func (n *Net) Provider() server.ReplicationRpcProvider {
+	return server.VerifReplicationProvider(netPool{n})
+}
+
+type netPool struct{ n *Net }
+
+func (netPool) Close() error { return nil }
+func (netPool) Clear(string) {}
+func (netPool) GetClientRpc(string) (proto.OxiaClientClient, error) {
+	return nil, errors.New("not supported")
+}
+func (netPool) GetHealthRpc(string) (grpc_health_v1.HealthClient, io.Closer, error) {
+	return nil, nil, errors.New("not supported")
+}
+func (netPool) GetCoordinationRpc(string) (proto.OxiaCoordinationClient, error) {
+	return nil, errors.New("not supported")
+}
+func (p netPool) GetReplicationRpc(target string) (proto.OxiaLogReplicationClient, error) {
+	return netReplClient{p.n, target}, nil
+}
+
+type netReplClient struct {
+	n        *Net
+	follower string
+}
+
+func mdOf(ctx context.Context) (ns string, shard, term int64) {
+	md, _ := metadata.FromOutgoingContext(ctx)
+	get := func(k string) string {
+		if v := md.Get(k); len(v) > 0 {
+			return v[0]
+		}
+		return ""
+	}
+	shard, term = -1, -1
+	if v, err := strconv.ParseInt(get("shard-id"), 10, 64); err == nil {
+		shard = v
+	}
+	if v, err := strconv.ParseInt(get("term"), 10, 64); err == nil {
+		term = v
+	}
+	return get("namespace"), shard, term
+}
+
+func (c netReplClient) Truncate(_ context.Context, in *proto.TruncateRequest, _ ...grpc.CallOption) (*proto.TruncateResponse, error) {
+	return c.n.Truncate(c.follower, in)
+}
+
+func (c netReplClient) Replicate(ctx context.Context, _ ...grpc.CallOption) (proto.OxiaLogReplication_ReplicateClient, error) {
+	md, _ := metadata.FromOutgoingContext(ctx)
+	c.n.mdOverride = md.Copy()
+	defer func() { c.n.mdOverride = nil }()
+	ns, shard, term := mdOf(ctx)
+	return c.n.GetReplicateStream(ctx, c.follower, ns, shard, term)
+}
+
+func (c netReplClient) SendSnapshot(ctx context.Context, _ ...grpc.CallOption) (proto.OxiaLogReplication_SendSnapshotClient, error) {
+	md, _ := metadata.FromOutgoingContext(ctx)
+	c.n.mdOverride = md.Copy()
+	defer func() { c.n.mdOverride = nil }()
+	ns, shard, term := mdOf(ctx)
+	return c.n.SendSnapshot(ctx, c.follower, ns, shard, term)
 }
